@@ -58,7 +58,21 @@ VerdictSmooth(c) ==
              ELSE IF \E i \in 1..Len(c.gfin) : c.gfin[i] # 1 THEN "gradient: non-finite gradient of the smoothed projection"
              ELSE "ok"
 
-Verdict(c) == IF c.kind = "tanh" THEN VerdictTanh(c) ELSE IF c.kind = "smooth" THEN VerdictSmooth(c) ELSE "malformed: kind"
+\* kind "sgrad": finite-gradient clause of the smoothed projection on smooth float32 / float64 designs with almost flat tails
+\* (Gaussian blobs, exponential decays); vfin / gfin = per-cell finiteness flags of the output / of d (weighted) sum / d rho
+WellFormedSGrad(c) ==
+    /\ BetaOK(c) /\ c.eden > 0 /\ c.en >= 0 /\ c.en <= c.eden /\ c.n >= 2
+    /\ c.gerr = "" => Len(c.gfin) = c.n * c.n /\ Len(c.vfin) = c.n * c.n
+
+VerdictSGrad(c) ==
+    IF ~WellFormedSGrad(c) THEN "malformed: sgrad record"
+    ELSE IF c.gerr # "" THEN "gradient: gradient call raised"
+    ELSE IF \E i \in 1..Len(c.vfin) : c.vfin[i] # 1 THEN "gradient: non-finite value of the smoothed projection"
+    ELSE IF \E i \in 1..Len(c.gfin) : c.gfin[i] # 1 THEN "gradient: non-finite gradient of the smoothed projection (smooth design)"
+    ELSE "ok"
+
+Verdict(c) == IF c.kind = "tanh" THEN VerdictTanh(c) ELSE IF c.kind = "smooth" THEN VerdictSmooth(c)
+              ELSE IF c.kind = "sgrad" THEN VerdictSGrad(c) ELSE "malformed: kind"
 
 TInit == ci = 1 /\ TLCSet(1, << >>)
 TNext == /\ ci <= Len(Cases)
